@@ -30,3 +30,7 @@ C('C18', 'differential oracle (second cffi path: element-wise indexing) on rando
 C('C16', 'history + byte-array reference model in lock-step; whole backing store compared after every operation; ASan red zones behind owned arrays',
   'Exploration: random 60-operation histories (index/slice read and write with in-range, boundary and >64-bit indexes, slices with step/missing bounds, writes through slices, slice assignment from 5 source kinds with right/wrong counts, pointer +/-/difference, (p+i)[j], addressof, offsetof, owning-pointer indexes) over 13 element kinds; accept/reject, exception class, aliasing and bytes compared with the model.',
   'Offsets bounded to |i*sizeof| < 2**62; non-integer keys not generated.')
+
+C('C19', 'history + bytearray reference model in lock-step over three kinds of backing memory; ASan (incl. memcpy-param-overlap) deciding',
+  'Exploration: random 50-operation histories over bytearray / array.array / cdata memory: buffer windows, index and slice reads with arbitrary bounds, item/slice assignment from 5 source kinds incl. overlapping views and wrong lengths, comparisons, from_buffer length/aliasing/fixed-size/require_writable, memmove over all dst/src kinds and overlap offsets; every read and the whole memory compared with the model after each step.',
+  'buffer[i] returns 1-byte bytes by design; cdata objects as slice-assignment sources are outside the stated class (see DESIGN.md findings table).')
